@@ -2,6 +2,7 @@ package chainclients
 
 import (
 	"bytes"
+	"context"
 	"encoding/binary"
 	"encoding/hex"
 	"errors"
@@ -10,11 +11,14 @@ import (
 	"runtime"
 	"strings"
 	"sync"
+	"sync/atomic"
 	"testing"
 	"time"
 
 	ouroboros "github.com/blinklabs-io/gouroboros"
 	"github.com/blinklabs-io/gouroboros/ledger"
+	"github.com/blinklabs-io/gouroboros/pipeline"
+	"github.com/blinklabs-io/gouroboros/protocol"
 	"github.com/blinklabs-io/gouroboros/protocol/chainsync"
 	pcommon "github.com/blinklabs-io/gouroboros/protocol/common"
 	"golang.org/x/crypto/blake2b"
@@ -47,6 +51,10 @@ type c21Case struct {
 	CbDelayUs  []int    `json:"cb_delay_us"` // cycled over the callbacks
 	StopAfter  int      `json:"stop_after"`  // Stop() is called when callback number StopAfter starts; -1: after the whole history
 	Intersect  int      `json:"intersect_points"`
+	Pipeline   bool     `json:"block_pipeline"`   // NtC only: blocks go through a pipeline.BlockPipeline, the apply function is the roll-forward callback
+	PipeWorker int      `json:"pipeline_workers"` // decode workers
+	PipeBuf    int      `json:"pipeline_buffer"`  // inter-stage channel size
+	HoldFwd    int      `json:"hold_in_decode"`   // pipeline: history index of a RollForward (followed by a RollBackward) whose block is held inside the decode worker until that rollback's callback fires or 1.5 s pass; -1: none
 	ClientPlan string   `json:"client_read_plan"`
 	ServerPlan string   `json:"server_read_plan"`
 }
@@ -131,7 +139,7 @@ func genC21(rt *rapid.T) c21Case {
 	pAwait := rapid.SampledFrom([]int{0, 5, 30, 100}).Draw(rt, "pAwait")
 	pDelay := rapid.SampledFrom([]int{0, 0, 3, 20}).Draw(rt, "pDelay")
 	pHold := rapid.SampledFrom([]int{0, 30, 90}).Draw(rt, "pHold")
-	nb := len(bases())
+	nb := nSmall()
 	for i := 0; i < n; i++ {
 		l := fmt.Sprintf("i%d", i)
 		it := csItem{Kind: "fwd"}
@@ -161,6 +169,23 @@ func genC21(rt *rapid.T) c21Case {
 		c.StopAfter = rapid.IntRange(1, n).Draw(rt, "stopafter")
 	}
 	c.Intersect = rapid.IntRange(0, 3).Draw(rt, "intersect")
+	if !c.NtN && rapid.IntRange(0, 2).Draw(rt, "pipeline") == 0 {
+		c.Pipeline = true
+		c.PipeWorker = rapid.IntRange(1, 4).Draw(rt, "pipeworkers")
+		c.PipeBuf = rapid.SampledFrom([]int{1, 2, 16, 1000}).Draw(rt, "pipebuf")
+	}
+	c.HoldFwd = -1
+	if c.Pipeline && rapid.IntRange(0, 2).Draw(rt, "hold") == 0 {
+		var cand []int
+		for i := 0; i+1 < len(c.History); i++ {
+			if c.History[i].Kind == "fwd" && c.History[i+1].Kind == "back" {
+				cand = append(cand, i)
+			}
+		}
+		if len(cand) > 0 {
+			c.HoldFwd = cand[rapid.IntRange(0, len(cand)-1).Draw(rt, "holdidx")]
+		}
+	}
 	return c
 }
 
@@ -308,11 +333,15 @@ type csLog struct {
 	afterStop int
 }
 
-func (l *csLog) enter() {
+func (l *csLog) enter() { l.enterKind(false) }
+
+// enterKind: apply marks a call of the pipeline's apply function, which is
+// asynchronous to the client by design and therefore may run after Stop().
+func (l *csLog) enterKind(apply bool) {
 	l.mu.Lock()
 	n := len(l.ev) + 1
 	d := l.delays[(n-1)%len(l.delays)]
-	if l.stopRet {
+	if l.stopRet && !apply {
 		l.afterStop++
 	}
 	l.mu.Unlock()
@@ -382,15 +411,66 @@ const (
 	c21StopBound = 15 * time.Second
 )
 
+// handled counts, per protocol instance, the RollForward/RollBackward messages
+// whose handler has been entered (verif tracer hook).
+type csTrace struct {
+	p       *protocol.Protocol
+	handled atomic.Int64
+}
+
+var c21Trace atomic.Pointer[csTrace]
+
+// holdState: fault schedule for the pipeline variant - one block is kept inside
+// the decode worker (pipeline verif stage hook) until the next RollBackward
+// callback fires or the bound passes.
+type holdState struct {
+	seq     uint64 // pipeline sequence number of the held block
+	release chan struct{}
+	once    sync.Once
+	held    atomic.Bool
+}
+
+func (h *holdState) free() { h.once.Do(func() { close(h.release) }) }
+
+var c21Hold atomic.Pointer[holdState]
+
+const c21HoldBound = 1500 * time.Millisecond
+
+func installC21Tracer() {
+	pipeline.SetVerifStageHook(func(stage string, item *pipeline.BlockItem) {
+		h := c21Hold.Load()
+		if h == nil || stage != "decode" || item.SequenceNumber() != h.seq || h.held.Swap(true) {
+			return
+		}
+		select {
+		case <-h.release:
+		case <-time.After(c21HoldBound):
+		}
+	})
+	protocol.SetVerifTracer(func(ev protocol.VerifEvent) {
+		tr := c21Trace.Load()
+		if tr == nil || ev.P != tr.p || ev.Kind != "handler" {
+			return
+		}
+		if ev.MsgType == 2 || ev.MsgType == 3 {
+			tr.handled.Add(1)
+		}
+	})
+}
+
 func TestC21(t *testing.T) {
+	installC21Tracer()
+	defer protocol.SetVerifTracer(nil)
+	defer pipeline.SetVerifStageHook(nil)
 	rec := evi.New(t, "C21", evi.Exploration,
-		"one Sync per case on a real NtC or NtN connection against a scripted raw chain-sync server: history of 1..400 replies, each RollForward (a real block / its header, fixtures of every era and salted variants) or RollBackward (random point or origin), optionally preceded by AwaitReply, each with its own tip; pipeline limit from {0,1,2,5,75,100}; raw or decoded callback; generated callback delays, server pauses, reply grouping into segments, read fragmentation; Stop() after the whole history or when a generated callback starts (then the server keeps answering outstanding requests). Non-trivial: >= 3 replies. Distinct by (mode, limit, callback kind, history shape, stop point).")
+		"one Sync per case on a real NtC or NtN connection against a scripted raw chain-sync server: history of 1..400 replies, each RollForward (a real block / its header, fixtures of every era and salted variants) or RollBackward (random point or origin), optionally preceded by AwaitReply, each with its own tip; pipeline limit from {0,1,2,5,75,100}; raw or decoded callback; NtC optionally through a pipeline.BlockPipeline (1..4 decode workers, buffer 1..1000; optionally one block held inside the decode worker until the next rollback callback fires); generated callback delays, server pauses, reply grouping into segments, read fragmentation; Stop() after the whole history or when a generated callback starts (then the server keeps answering outstanding requests). Non-trivial: >= 3 replies. Distinct by (mode, limit, callback kind, pipeline parameters, history shape, stop point).")
 	defer rec.Finish()
 	rec.Assume(
 		"pipeline limit 0 is 'unset' and means the documented default 75 (chainsync.NewClient)",
 		"the wire-level count (#RequestNext received by the server - #RollForward/RollBackward sent by the server) bounds the client's own count of unanswered requests from below, so exceeding the limit on the wire implies exceeding it in the client",
 		"Stop() is called from a goroutine other than the callback (the callback API offers ErrStopSyncProcess for the other case); after Stop the server keeps answering every request it received",
-		"bounded liveness: every wait on the library is 40 s, far above the sub-second duration of a whole case",
+		"bounded liveness: no progress for 40 s = stall; Stop() not returning for 15 s (its own timers are 250 ms and 5 s) = hang; 3 s after Stop() returned with nothing owed by the server, neither MsgDone nor the end of the connection = conversation left open",
+		"with a block pipeline the apply function takes the place of the roll-forward callback and may legitimately run after Stop() returned",
 	)
 	rec.Check(func(rt *rapid.T) {
 		cs := genC21(rt)
@@ -404,10 +484,13 @@ func TestC21(t *testing.T) {
 	})
 }
 
-func runC21(rt *rapid.T, rec *evi.Recorder, cs *c21Case, pc, ps rawpeer.Plan) {
+func runC21(rt tb, rec *evi.Recorder, cs *c21Case, pc, ps rawpeer.Plan) {
 	mode := "ntc"
 	if cs.NtN {
 		mode = "ntn"
+	}
+	if cs.Pipeline {
+		mode = "ntc-pipeline"
 	}
 	lim := fmt.Sprintf("limit%d", cs.Limit)
 	// A listed known finding makes Stop() deadlock for this configuration; each
@@ -424,6 +507,9 @@ func runC21(rt *rapid.T, rec *evi.Recorder, cs *c21Case, pc, ps rawpeer.Plan) {
 		chainsync.WithPipelineLimit(cs.Limit),
 		chainsync.WithIntersectTimeout(120 * time.Second),
 		chainsync.WithRollBackwardFunc(func(_ chainsync.CallbackContext, p pcommon.Point, tip chainsync.Tip) error {
+			if h := c21Hold.Load(); h != nil && h.held.Load() {
+				h.free()
+			}
 			log.enter()
 			log.add(csEvent{Kind: "back", Slot: p.Slot, PHash: p.Hash, Tip: libTip(tip)})
 			return nil
@@ -449,6 +535,63 @@ func runC21(rt *rapid.T, rec *evi.Recorder, cs *c21Case, pc, ps rawpeer.Plan) {
 			return nil
 		}))
 	}
+	if cs.Pipeline && cs.HoldFwd >= 0 {
+		h := &holdState{release: make(chan struct{})}
+		for i := 0; i < cs.HoldFwd; i++ {
+			if cs.History[i].Kind == "fwd" {
+				h.seq++
+			}
+		}
+		c21Hold.Store(h)
+		defer func() { h.free(); c21Hold.Store(nil) }()
+		rec.Class("pipeline_hold_block_in_decode")
+	}
+	var pl *pipeline.BlockPipeline
+	var plErrs []string
+	var plMu sync.Mutex
+	stopPipeline := func() {}
+	if cs.Pipeline {
+		pl = pipeline.NewBlockPipeline(
+			pipeline.WithDecodeWorkers(cs.PipeWorker),
+			pipeline.WithPrefetchBufferSize(cs.PipeBuf),
+			pipeline.WithApplyFunc(func(it *pipeline.BlockItem) error {
+				log.enterKind(true)
+				e := csEvent{Kind: "fwd", Type: it.BlockType(), Bytes: append([]byte(nil), it.RawCbor()...), Tip: libTip(it.Tip())}
+				if b := it.Block(); b != nil {
+					e.Hash = b.Hash().Bytes()
+				}
+				log.add(e)
+				return nil
+			}),
+		)
+		if err := pl.Start(context.Background()); err != nil {
+			rt.Fatalf("harness: pipeline start: %v", err)
+		}
+		go func() {
+			for range pl.Results() {
+			}
+		}()
+		go func() {
+			for e := range pl.Errors() {
+				plMu.Lock()
+				plErrs = append(plErrs, e.Error())
+				plMu.Unlock()
+			}
+		}()
+		var once sync.Once
+		stopPipeline = func() {
+			once.Do(func() {
+				fin := make(chan struct{})
+				go func() { _ = pl.Stop(); close(fin) }()
+				select {
+				case <-fin:
+				case <-time.After(10 * time.Second):
+				}
+			})
+		}
+		defer stopPipeline()
+		opts = append(opts, chainsync.WithPipeline(pl))
+	}
 	cfg := chainsync.NewConfig(opts...)
 	s, err := dial(cs.NtN, pc, ps, ouroboros.WithChainSyncConfig(cfg))
 	if err != nil {
@@ -461,12 +604,20 @@ func runC21(rt *rapid.T, rec *evi.Recorder, cs *c21Case, pc, ps rawpeer.Plan) {
 		}
 	}()
 	client := s.oc.ChainSync().Client
+	trace := &csTrace{p: client.ProtocolInstance()}
+	c21Trace.Store(trace)
+	defer c21Trace.Store(nil)
 	proto := protoChainSyncNtC
 	if cs.NtN {
 		proto = protoChainSyncNtN
 	}
 	fail := func(key, what string, extra map[string]any) bool {
 		obj := map[string]any{"case": caseSummary(cs), "conn_errors": s.connErrors()}
+		if cs.Pipeline {
+			plMu.Lock()
+			obj["pipeline_errors"] = append([]string(nil), plErrs...)
+			plMu.Unlock()
+		}
 		for k, v := range extra {
 			obj[k] = v
 		}
@@ -556,6 +707,19 @@ func runC21(rt *rapid.T, rec *evi.Recorder, cs *c21Case, pc, ps rawpeer.Plan) {
 		for k, e := range evs {
 			it := cs.item(k)
 			if msg := cmpEvent(cs, k, it, e); msg != "" {
+				if cs.Pipeline && e.Kind == "back" && it.Kind == "fwd" {
+					// is it the callback of a later RollBackward that overtook the
+					// roll-forwards sent before it?
+					j := k
+					for j < n && cs.History[j].Kind == "fwd" {
+						j++
+					}
+					if j < n && cmpEvent(cs, j, cs.History[j], e) == "" {
+						return fail("pipeline:rollback-overtakes-rollforward",
+							fmt.Sprintf("with a block pipeline the RollBackward callback of reply %d fired before the apply call of %d RollForward(s) the server had sent before it (replies %d..%d); callbacks: %s", j, j-k, k, j-1, evKinds(evs, k, j+2)),
+							map[string]any{"index": k})
+					}
+				}
 				kind := strings.SplitN(msg, ":", 2)[0]
 				if !fail(fmt.Sprintf("callback-%s:%s", kind, mode), fmt.Sprintf("callback %d of %d: %s", k, len(evs), msg), map[string]any{"index": k}) {
 					return false
@@ -657,6 +821,9 @@ func runC21(rt *rapid.T, rec *evi.Recorder, cs *c21Case, pc, ps rawpeer.Plan) {
 	rec.Eval()
 	rec.Class(mode)
 	rec.Class(lim)
+	if cs.Pipeline {
+		rec.Class("with_block_pipeline")
+	}
 
 	if srv.viol != "" {
 		if !fail(fmt.Sprintf("pipeline-limit-exceeded:%s:%s", mode, lim), srv.viol, nil) {
@@ -683,8 +850,8 @@ func runC21(rt *rapid.T, rec *evi.Recorder, cs *c21Case, pc, ps rawpeer.Plan) {
 		fail(k, fmt.Sprintf("Stop() did not return: no progress for %v after it was called (%d RequestNext seen, %d replies sent, %d callbacks)", c21StopBound, srv.reqs, srv.sent, log.waitLen(0, 0, nil)), dump())
 		return
 	case "stop:conversation-not-ended":
-		// requests the client sent whose replies never reached a callback
-		inflight := srv.reqs - sr.atLen
+		// requests the client sent whose replies never reached a handler
+		inflight := srv.reqs - int(trace.handled.Load())
 		cls := "requests-in-flight"
 		if inflight <= 0 {
 			cls = "client-idle"
@@ -692,8 +859,8 @@ func runC21(rt *rapid.T, rec *evi.Recorder, cs *c21Case, pc, ps rawpeer.Plan) {
 		key := "stop:no-done-connection-left-open:" + cls
 		noteNotEnded(key)
 		if !fail(key,
-			fmt.Sprintf("Stop() returned (err=%v) but the server saw neither MsgDone nor the end of the connection: the client sent %d RequestNext, the server answered all %d, %d callbacks had fired when Stop returned (%d requests in flight); the conversation is simply abandoned and the connection stays open",
-				sr.err, srv.reqs, srv.sent, sr.atLen, inflight), dump()) {
+			fmt.Sprintf("Stop() returned (err=%v) but the server saw neither MsgDone nor the end of the connection: the client sent %d RequestNext, the server answered all %d, the client handled %d replies (%d requests in flight); the conversation is simply abandoned and the connection stays open",
+				sr.err, srv.reqs, srv.sent, trace.handled.Load(), inflight), dump()) {
 			return
 		}
 		rec.Class("stop_left_conversation_open")
@@ -701,6 +868,7 @@ func runC21(rt *rapid.T, rec *evi.Recorder, cs *c21Case, pc, ps rawpeer.Plan) {
 	if skipped {
 		s.close()
 		closed = true
+		stopPipeline()
 		rec.Class("stop_skipped_known_hang_config")
 		if compareLog(false) && n >= 3 {
 			rec.NonTrivial(caseKey(cs), caseSummary(cs))
@@ -732,10 +900,14 @@ func runC21(rt *rapid.T, rec *evi.Recorder, cs *c21Case, pc, ps rawpeer.Plan) {
 	}
 	s.close()
 	closed = true
+	stopPipeline()
 	log.mu.Lock()
 	late := log.afterStop
 	final := len(log.ev)
 	log.mu.Unlock()
+	if cs.Pipeline {
+		final = sr.atLen // apply calls are asynchronous; only direct callbacks count (afterStop)
+	}
 	if late > 0 || final != sr.atLen {
 		if !fail("stop:callback-after-stop:"+mode, fmt.Sprintf("%d callback(s) fired after Stop() had returned (log %d -> %d)", max(late, final-sr.atLen), sr.atLen, final), nil) {
 			return
@@ -798,6 +970,14 @@ func notEndedShort(rec *evi.Recorder, mode string) bool {
 	return c21NotEndedSeen[key] >= rec.Pick(2, 4)
 }
 
+func evKinds(evs []csEvent, from, to int) string {
+	var sb strings.Builder
+	for i := max(0, from-2); i < min(len(evs), to); i++ {
+		fmt.Fprintf(&sb, "#%d:%s ", i, evs[i].Kind)
+	}
+	return sb.String()
+}
+
 func outClass(maxOut, bound int) string {
 	switch {
 	case maxOut == bound:
@@ -837,7 +1017,7 @@ func cmpEvent(cs *c21Case, k int, it csItem, e csEvent) string {
 	if !bytes.Equal(e.Bytes, wantBytes) {
 		return fmt.Sprintf("payload: callback got %s.. (%d bytes), reply carried %s.. (%d bytes)", short(e.Bytes), len(e.Bytes), short(wantBytes), len(wantBytes))
 	}
-	if !cs.Raw && !bytes.Equal(e.Hash, b.Hash) {
+	if !cs.Raw && !(cs.Pipeline && e.Hash == nil) && !bytes.Equal(e.Hash, b.Hash) {
 		return fmt.Sprintf("payload: callback object hashes to %x, reference %x", e.Hash, b.Hash)
 	}
 	return ""
@@ -846,7 +1026,7 @@ func cmpEvent(cs *c21Case, k int, it csItem, e csEvent) string {
 // caseKey is the canonical description used for distinctness.
 func caseKey(cs *c21Case) string {
 	var sb strings.Builder
-	fmt.Fprintf(&sb, "ntn=%v limit=%d raw=%v stop=%d cb=%v ", cs.NtN, cs.Limit, cs.Raw, cs.StopAfter, cs.CbDelayUs)
+	fmt.Fprintf(&sb, "ntn=%v limit=%d raw=%v stop=%d cb=%v pl=%v/%d/%d/%d ", cs.NtN, cs.Limit, cs.Raw, cs.StopAfter, cs.CbDelayUs, cs.Pipeline, cs.PipeWorker, cs.PipeBuf, cs.HoldFwd)
 	for _, it := range cs.History {
 		c := byte('f')
 		if it.Kind == "back" {
@@ -888,6 +1068,7 @@ func caseSummary(cs *c21Case) map[string]any {
 		"ntn": cs.NtN, "pipeline_limit": cs.Limit, "raw_callback": cs.Raw, "seed": cs.Seed,
 		"n": len(cs.History), "stop_after": cs.StopAfter, "cb_delay_us": cs.CbDelayUs,
 		"client_read_plan": cs.ClientPlan, "server_read_plan": cs.ServerPlan,
+		"block_pipeline": cs.Pipeline, "pipeline_workers": cs.PipeWorker, "pipeline_buffer": cs.PipeBuf, "hold_in_decode": cs.HoldFwd,
 		"history": strings.TrimSpace(sb.String()),
 		"legend":  "f RollForward, b RollBackward, A preceded by AwaitReply, + shares a segment with the next reply",
 	}
